@@ -167,6 +167,8 @@ def make_mutants(pid, per_func, seed):
         src = path.read_text()
         tree = ast.parse(src)
         lines = src.splitlines(keepends=True)
+        # a function whose body was moved into a private helper of the same name (format_code -> _format_code)
+        quals = list(quals) + [q2 for q2 in ("_" + q for q in quals if "." not in q) if find_func(tree, q2) is not None]
         for q in quals:
             fn = find_func(tree, q)
             if fn is None or isinstance(fn, ast.ClassDef):
@@ -221,10 +223,7 @@ def run_mutant(k, mut, idx):
     r = subprocess.run(["/venv/bin/python", "-m", "pytest", "-q", "-x", "-p", "no:cacheprovider", "--timeout=300", "tests"],
                        cwd=rp, capture_output=True, text=True, env=env, timeout=900)
     res = {k2: mut[k2] for k2 in ("property", "file", "function", "mutation")}
-    if "passed" not in r.stdout.splitlines()[-1] if r.stdout.strip() else True or " failed" in r.stdout or "error" in r.stdout.lower().splitlines()[-1]:
-        res.update(result="killed-by-test-suite", wall_s=round(time.time() - t0, 1))
-        return res
-    if " failed" in r.stdout:
+    if r.returncode != 0:
         res.update(result="killed-by-test-suite", wall_s=round(time.time() - t0, 1))
         return res
     env2 = dict(os.environ, VERIF_REPO=str(rp))
